@@ -430,7 +430,22 @@ pub fn prefilter_lists(rg: &mut StdRng, which: usize) -> Pats {
     let mut word = |rg: &mut StdRng, lo: usize, hi: usize| -> Vec<u8> {
         (0..rg.gen_range(lo..=hi)).map(|_| letters[rg.gen_range(0..letters.len())]).collect()
     };
-    match which % 6 {
+    match which % 7 {
+        // packed-friendly list with patterns that leftmost-first prunes (an earlier pattern is
+        // a proper prefix) and duplicates, placed BEFORE other patterns
+        6 => {
+            let mut v: Pats = (0..rg.gen_range(5..=10)).map(|i| { let mut w = vec![letters[(i * 3 + 1) % letters.len()]]; w.extend(word(rg, 1, 4)); w }).collect();
+            let n = v.len();
+            for k in 0..2 {
+                let base = v[(k * 2) % n].clone();
+                let mut ext = base.clone();
+                ext.extend(word(rg, 1, 3));
+                v.insert((k * 2) % n + 1, ext);
+            }
+            let dup = v[n / 2].clone();
+            v.insert(n / 2 + 1, dup);
+            v
+        }
         // a single pattern: memmem
         0 => vec![word(rg, 1, 8)],
         // <= 3 distinct first bytes: start bytes
@@ -1033,10 +1048,10 @@ pub fn run(out_prefix: &str, shards: usize, family: &str, seed: u64, scale: usiz
         "prefilter" => {
             let mut rg = gen::rng(seed, 0xCA11_0007);
             let maxhay = if scale > 1 { 300 } else { 120 };
-            for i in 0..(36 * scale) {
+            for i in 0..(42 * scale) {
                 let pats = prefilter_lists(&mut rg, i);
                 let mk = f.mks[rg.gen_range(0..f.mks.len())];
-                let ci = i % 6 == 5 || rg.gen_range(0..5) == 0;
+                let ci = i % 7 == 5 || (i % 7 != 6 && rg.gen_range(0..5) == 0);
                 let hays: Vec<Vec<u8>> =
                     (0..8).map(|_| gen::random_hay(&mut rg, &pats, ci, maxhay)).collect();
                 let spans: Vec<(usize, usize)> =
@@ -1137,6 +1152,39 @@ pub fn run(out_prefix: &str, shards: usize, family: &str, seed: u64, scale: usiz
                                     r.flush_nohay(h.len(), sp);
                                 }
                             });
+                        }
+                    }
+                }
+            }
+        }
+        // states with many outgoing transitions (encoding thresholds of the contiguous NFA
+        // and DFA rows): every child byte is searched through every kind (C04, C16)
+        "fans" => {
+            let fans: Vec<usize> = if scale > 1 { vec![1, 2, 3, 4, 5, 126, 127, 128, 129, 252, 253, 254, 255, 256] } else { vec![127, 128, 253, 254, 255, 256] };
+            for (fi, &fan) in fans.iter().enumerate() {
+                for (prefix, dds) in [(&b"q"[..], vec![0i64, 1]), (&b"xyz"[..], vec![-1, 0, 3])] {
+                    let pats: Pats = (0..fan).map(|b| { let mut p = prefix.to_vec(); p.push(b as u8); p }).collect();
+                    let hays: Vec<Vec<u8>> = (0..=255u8).step_by(if scale > 1 { 1 } else { 3 }).chain([0u8, 1, 125, 126, 127, 128, 252, 253, 254, 255]).map(|b| { let mut h = prefix.to_vec(); h.push(b); h.push(b'!'); h }).collect();
+                    for &mk in &f.mks {
+                        if mk == "ll" && scale < 2 { continue; }
+                        for repr in ["nc", "c", "dfa", "top-auto"] {
+                            for &dd in &dds {
+                                for bc in [true, false] {
+                                    if repr != "c" && (dd != dds[0] || !bc) { continue; }
+                                    let mut c = Ctx::new(&pats, mk, repr);
+                                    c.dd = dd;
+                                    c.bc = bc;
+                                    c.pre = fi % 2 == 0;
+                                    with_ctx(&mut out, &mut stats, &c, &mut |r, s| {
+                                        for h in &hays {
+                                            ev_find(r, s, h, (0, h.len()), false, false);
+                                            ev_recipe(r, s, h);
+                                            if mk == "std" { ev_overlap_iter(r, s, h, (0, h.len())); }
+                                            r.flush(h, (0, h.len()));
+                                        }
+                                    });
+                                }
+                            }
                         }
                     }
                 }
